@@ -651,6 +651,84 @@ def run_shard(sh):
                                                                                              int(ipaddress.ip_network(w_, strict=False).network_address if '/' in w_ else ipaddress.ip_address(w_)) < (1 << 32) else []),
                             'descriptor %d encodes %s, decoded as %s' % (code, w_, json.dumps(gen.norm(d))[:200]), rep)
     vcount['bgp_ls_nlri'] = nln
+    # ------------------------------------------------------------ PMSI tunnel (RFC 6514 5) and BGP Prefix-SID (RFC 8669 3, RFC 9252 2) attributes
+    npm = 0
+    for _ in range(sh['n'] // 40 if sh['part'] % 4 == 1 else 0):
+        std = refenc.attr(1, b'\x00') + refenc.attr(2, b'') + refenc.attr(3, refenc.ip_bytes('10.0.0.1'))
+        if rng.random() < 0.5:
+            ttype = rng.choice([6, 6, 6, 0, 1, 2, 3, 4, 5, 7])
+            leaf, lab = rng.choice([0, 0, 1]), rng.choice([0, 16, 1000, 1048575])
+            tid, tb = None, b''
+            if ttype == 6:
+                tid = gen.ipv4(rng) if rng.random() < 0.6 else gen.ipv6(rng, rng.choice(['doc', 'll', 'small']))
+                tb = refenc.ip_bytes(tid)
+            elif ttype == 1:
+                tb = struct.pack('!IHH', rng.choice(gen.U32), 0, rng.choice(gen.U16)) + refenc.ip_bytes(gen.ipv4(rng))
+            elif ttype in (2, 7):
+                tb = bytes([6, 0, 1, 4]) + refenc.ip_bytes(gen.ipv4(rng)) + bytes([0, 7, 1, 0, 4]) + struct.pack('!I', rng.choice(gen.U32))
+            elif ttype in (3, 4, 5):
+                tb = refenc.ip_bytes(gen.ipv4(rng)) + refenc.ip_bytes('232.1.1.%d' % rng.randint(1, 254))
+            at = std + refenc.attr(22, bytes([leaf, ttype]) + (lab << 4).to_bytes(3, 'big') + tb)
+            code, want = 22, Paths([(['leaf_info_required'], leaf), (['tunnel_type'], ttype), (['mpls_label'], [lab])] + ([(['tunnel_id'], Addr(tid))] if tid else []))
+            feats = ['variant:pmsi-tunnel', 'tunnel-type:%d' % ttype]
+        else:
+            sid = gen.ipv6(rng, rng.choice(['doc', 'doc', 'rand', 'small']))
+            beh, fl = rng.choice([17, 18, 19, 20, 65535]), rng.choice([0, 0x80, 0xff])
+            struct_ = [rng.choice([0, 16, 32, 40, 48, 64]) for _ in range(6)]
+            subsub = (struct.pack('!BH', 1, 6) + bytes(struct_)) if rng.random() < 0.7 else b''
+            info = bytes([0]) + refenc.ip_bytes(sid) + bytes([fl]) + struct.pack('!H', beh) + bytes([0]) + subsub
+            l3 = bytes([0]) + struct.pack('!BH', 1, len(info)) + info
+            tl = struct.pack('!BH', 5, len(l3)) + l3
+            extra = b''
+            if rng.random() < 0.4:
+                extra = struct.pack('!BH', 1, 7) + bytes([0]) + struct.pack('!HI', 0, rng.choice(gen.U32))       # RFC 8669 Label-Index TLV
+            order = [extra, tl] if rng.random() < 0.5 else [tl, extra]
+            at = std + refenc.attr(40, b''.join(order))
+            code, want, feats = 40, None, ['variant:prefix-sid-srv6'] + (['ipv6-below-2^32'] if int(ipaddress.ip_address(sid)) < (1 << 32) else [])
+        body = struct.pack('!H', 0) + struct.pack('!H', len(at)) + at + refenc.prefix_list4(['192.0.2.0/24'])
+        npm += 1
+        res['evaluations'] += 1
+        rep = dict(body=body.hex(), asn4=True)
+        try:
+            r = Update.parse(None, body, True)
+        except Exception as e:
+            bad('reference-decode-raised', feats, 'Update.parse raised %r' % (e,), rep)
+            continue
+        gv = (r['attr'] or {}).get(code)
+        if r['sub_error'] or gv is None:
+            bad('reference-decode-error', feats, 'sub_error %r, attribute %d = %s on a well-formed encoding' % (r['sub_error'], code, json.dumps(gen.norm(gv))[:200]), rep)
+            continue
+        if code == 22:
+            for pth, wv in want:
+                g_ = gv.get(pth[0], KeyError) if isinstance(gv, dict) else KeyError
+                if g_ is KeyError:
+                    continue
+                if not (_same_addr(g_, wv) if isinstance(wv, Addr) else gen.norm(g_) == gen.norm(wv)):
+                    bad('reference-decode-differs', feats + ['field:' + pth[0]], 'PMSI tunnel attribute encodes %s = %s, decoded as %s' % (pth[0], wv, json.dumps(gen.norm(gv))[:200]), rep)
+        else:
+            # the SRv6 L3 service TLV: SID, flags, behaviour and structure must come back wherever the decoder puts them
+            flat = json.dumps(gen.norm(gv))
+            n_ent = len(gv) if isinstance(gv, list) else -1
+            if n_ent != (2 if extra else 1):
+                bad('reference-decode-differs', feats + ['tlv-count'], 'Prefix-SID attribute with %d TLV(s) decoded as %s' % (2 if extra else 1, flat[:300]), rep)
+                continue
+            leaves = []
+
+            def walk_(o):
+                if isinstance(o, dict):
+                    for v_ in o.values():
+                        walk_(v_)
+                elif isinstance(o, list):
+                    for v_ in o:
+                        walk_(v_)
+                else:
+                    leaves.append(o)
+            walk_(gv)
+            if not any(isinstance(x, str) and _same_addr(x, sid) for x in leaves):
+                bad('reference-decode-differs', feats + ['field:sid'], 'SRv6 SID %s not found in the decoded Prefix-SID attribute %s' % (sid, flat[:300]), rep)
+            if beh not in leaves:
+                bad('reference-decode-differs', feats + ['field:behavior'], 'endpoint behaviour %d not found in the decoded Prefix-SID attribute %s' % (beh, flat[:300]), rep)
+    vcount['pmsi_prefix_sid'] = npm
     # ------------------------------------------------------------ End-of-RIB markers (RFC 4724): MP_UNREACH_NLRI with a family and no route
     neor = 0
     for afs in ([2, 1], [1, 4], [2, 4], [1, 128], [2, 128], [25, 70], [1, 133], [1, 1]) if sh['part'] < 4 else []:
@@ -759,7 +837,7 @@ def floors(m, tier):
     c = m['counters']
     unmet = []
     for k, n in (('reference_encodings_decoded', 10000), ('corruptions_checked', 5000), ('through_protocol_good', 50), ('calibration_vectors_reproduced', 20),
-                 ('variant_ext', 1000), ('variant_dirty', 1000), ('variant_as4', 1000), ('variant_addpath', 500), ('variant_bgp_ls_attribute', 1000), ('variant_bgp_ls_nlri', 1000)):
+                 ('variant_ext', 1000), ('variant_dirty', 1000), ('variant_as4', 1000), ('variant_addpath', 500), ('variant_bgp_ls_attribute', 1000), ('variant_bgp_ls_nlri', 1000), ('variant_pmsi_prefix_sid', 500)):
         if c.get(k, 0) < n:
             unmet.append('%s below %d' % (k, n))
     return unmet
